@@ -120,7 +120,19 @@ def prepare_scratch(unit, repo, scratch):
                 out.append(text)
             open(os.path.join(crate, dst_rel), 'w').write('\n\n'.join(out) + '\n')
         shutil.copy(os.path.join(udir, 'lib.rs'), os.path.join(crate, 'src', 'lib.rs'))
-        shutil.copy(os.path.join(udir, 'harness.rs'), os.path.join(crate, 'src', 'harness.rs'))
+        htext = open(os.path.join(udir, 'harness.rs')).read()
+        # `//@append <file in the mini-crate>` sections are appended to that (copied) file so that private items are in
+        # scope unchanged; the text before the first section is the separate harness module
+        first = htext.find('//@append ')
+        main_part = htext if first < 0 else htext[:first]
+        open(os.path.join(crate, 'src', 'harness.rs'), 'w').write(main_part)
+        if first >= 0:
+            for sct in parse_sections(htext[first:]):
+                tp = os.path.join(crate, sct['file'])
+                if not os.path.exists(tp):
+                    raise lift.LiftError('%s: append target %s missing in the mini-crate' % (unit, sct['file']))
+                with open(tp, 'a') as f:
+                    f.write('\n' + '\n'.join(sct['lines']).strip('\n') + '\n')
         return crate, cfg, prov
     else:
         raise RuntimeError('unknown mode')
